@@ -235,6 +235,39 @@ static void do_ir(int argc, char** argv)
 	free_args(&a);
 }
 
+/* irx <f> <args>: block primitives (their IR is executed by the Lean driver) */
+void beltBlockEncr(octet block[16], const u32 key[8]);
+void beltBlockDecr(octet block[16], const u32 key[8]);
+void beltBlockEncr2(u32 block[4], const u32 key[8]);
+void beltBlockDecr2(u32 block[4], const u32 key[8]);
+void beltCompr(u32 h[8], const u32 X[8], void* stack);
+void beltCompr2(u32 s[4], u32 h[8], const u32 X[8], void* stack);
+void beltPolyMul(word c[], const word a[], const word b[], void* stack);
+void beltBlockMulC(u32 block[4]);
+void ppRedBelt(word a[]);
+static void do_irx(int argc, char** argv)
+{
+	args_t a_, *a = &a_;
+	const char* f;
+	if (argc < 1 || !parse_args(a, argc - 1, argv + 1)) { printf("bad-op"); return; }
+	f = argv[0];
+	set_taint(a, 1);
+	if (!strcmp(f, "beltBlockEncr") && a->nv == 2) beltBlockEncr((octet*)P(0), (const u32*)P(1));
+	else if (!strcmp(f, "beltBlockDecr") && a->nv == 2) beltBlockDecr((octet*)P(0), (const u32*)P(1));
+	else if (!strcmp(f, "beltBlockEncr2") && a->nv == 2) beltBlockEncr2((u32*)P(0), (const u32*)P(1));
+	else if (!strcmp(f, "beltBlockDecr2") && a->nv == 2) beltBlockDecr2((u32*)P(0), (const u32*)P(1));
+	else if (!strcmp(f, "beltCompr") && a->nv == 3) beltCompr((u32*)P(0), (const u32*)P(1), P(2));
+	else if (!strcmp(f, "beltCompr2") && a->nv == 4) beltCompr2((u32*)P(0), (u32*)P(1), (const u32*)P(2), P(3));
+	else if (!strcmp(f, "beltPolyMul") && a->nv == 4) beltPolyMul(WM(0), W(1), W(2), P(3));
+	else if (!strcmp(f, "beltBlockMulC") && a->nv == 1) beltBlockMulC((u32*)P(0));
+	else if (!strcmp(f, "ppRedBelt") && a->nv == 1) ppRedBelt(WM(0));
+	else if (!strcmp(f, "bashF") && a->nv == 2) bashF((octet*)P(0), P(1));
+	else { set_taint(a, 0); printf("bad-op"); return; }
+	set_taint(a, 0);
+	print_result(a, 'v', 0, 0, 0);
+	free_args(a);
+}
+
 static void do_sf(int argc, char** argv)
 {
 	args_t a, c;
@@ -334,7 +367,9 @@ static void do_verify(int mode, int argc, char** argv)
 	unsigned char *key, *iv, *data, *tag = 0, *st = 0;
 	unsigned char out[64];
 	int r = -1;
-	size_t outlen = 0;
+	size_t outlen = 0, keep = 0;
+	int dump = (mode == 2);
+	if (dump) mode = 0;
 	if (argc < 5 + mode) { printf("bad-op"); return; }
 	k = argv[0];
 	key = hex_arg(argv[1], &lk); iv = hex_arg(argv[2], &liv); data = hex_arg(argv[3], &ld);
@@ -344,34 +379,39 @@ static void do_verify(int mode, int argc, char** argv)
 	memset(out, 0, sizeof out);
 	if (!strncmp(k, "beltMAC", 7))
 	{
-		st = (unsigned char*)malloc(beltMAC_keep());
+		st = (unsigned char*)malloc(keep = beltMAC_keep());
 		beltMACStart(st, key, lk); beltMACStepA(data, ld, st);
+		if (dump) goto dumpst;
 		if (!mode) beltMACStepG(out, st), outlen = 8;
 		else r = strcmp(k, "beltMACStepV") ? beltMACStepV2(tag, len, st) : beltMACStepV(tag, st);
 	}
 	else if (!strncmp(k, "beltDWP", 7))
 	{
-		st = (unsigned char*)malloc(beltDWP_keep());
+		st = (unsigned char*)malloc(keep = beltDWP_keep());
 		beltDWPStart(st, key, lk, iv); beltDWPStepI(data, ld / 2, st); beltDWPStepA(data + ld / 2, ld - ld / 2, st);
+		if (dump) goto dumpst;
 		if (!mode) beltDWPStepG(out, st), outlen = 8; else r = beltDWPStepV(tag, st);
 	}
 	else if (!strncmp(k, "beltCHE", 7))
 	{
-		st = (unsigned char*)malloc(beltCHE_keep());
+		st = (unsigned char*)malloc(keep = beltCHE_keep());
 		beltCHEStart(st, key, lk, iv); beltCHEStepI(data, ld / 2, st); beltCHEStepA(data + ld / 2, ld - ld / 2, st);
+		if (dump) goto dumpst;
 		if (!mode) beltCHEStepG(out, st), outlen = 8; else r = beltCHEStepV(tag, st);
 	}
 	else if (!strncmp(k, "beltHashStepV", 13))
 	{
-		st = (unsigned char*)malloc(beltHash_keep());
+		st = (unsigned char*)malloc(keep = beltHash_keep());
 		beltHashStart(st); beltHashStepH(data, ld, st);
+		if (dump) goto dumpst;
 		if (!mode) beltHashStepG(out, st), outlen = 32;
 		else r = strcmp(k, "beltHashStepV") ? beltHashStepV2(tag, len, st) : beltHashStepV(tag, st);
 	}
 	else if (!strncmp(k, "beltHMAC", 8))
 	{
-		st = (unsigned char*)malloc(beltHMAC_keep());
+		st = (unsigned char*)malloc(keep = beltHMAC_keep());
 		beltHMACStart(st, key, lk); beltHMACStepA(data, ld, st);
+		if (dump) goto dumpst;
 		if (!mode) beltHMACStepG(out, st), outlen = 32;
 		else r = strcmp(k, "beltHMACStepV") ? beltHMACStepV2(tag, len, st) : beltHMACStepV(tag, st);
 	}
@@ -380,17 +420,58 @@ static void do_verify(int mode, int argc, char** argv)
 		/* security level 128/192/256 from the length of the full hash value (l/4 octets) */
 		size_t tl = (mode && argc > 6) ? strlen(argv[6]) / 2 : len;	/* length of the full hash value */
 		size_t l = (tl <= 32 ? 128 : tl <= 48 ? 192 : 256);
-		st = (unsigned char*)malloc(bashHash_keep());
+		st = (unsigned char*)malloc(keep = bashHash_keep());
 		bashHashStart(st, l); bashHashStepH(data, ld, st);
+		if (dump) goto dumpst;
 		if (!mode) bashHashStepG(out, l / 4, st), outlen = l / 4; else r = bashHashStepV(tag, len, st);
 	}
 	else { printf("bad-op"); return; }
+	if (0)
+	{
+dumpst:
+		DF(st, keep);
+		put_hex(st, keep);
+		free(st);
+		DF(key, lk); DF(data, ld);
+		hex_free(key, lk); hex_free(iv, liv); hex_free(data, ld);
+		return;
+	}
 	DF(&r, sizeof r); DF(out, sizeof out);
 	if (!mode) put_hex(out, outlen); else printf("%d", r ? 1 : 0);
 	free(st);
 	DF(key, lk); DF(data, ld);
 	hex_free(key, lk); hex_free(iv, liv); hex_free(data, ld);
 	if (tag) { DF(tag, lt); hex_free(tag, lt); }
+}
+
+/* stepvx <kind> <state> <tag> <len> <public ranges>   the real Verify step on a state given octet by octet
+   (states are position-free); the Lean side runs the IR of the step INCLUDING StepG_internal and the block
+   primitives on the same state */
+static void do_stepvx(int argc, char** argv)
+{
+	size_t ls, lt, len;
+	unsigned char *st0, *st, *tag;
+	const char* k;
+	int r = -1;
+	if (argc != 5) { printf("bad-op"); return; }
+	k = argv[0];
+	st0 = hex_arg(argv[1], &ls); tag = hex_arg(argv[2], &lt); len = (size_t)u_arg(argv[3]);
+	st = (unsigned char*)malloc(ls + 4096);		/* room for the scratch area behind short dumps */
+	memset(st, 0, ls + 4096);
+	memcpy(st, st0, ls);
+	if (!strcmp(k, "beltMACStepV")) r = beltMACStepV(tag, st);
+	else if (!strcmp(k, "beltMACStepV2")) r = beltMACStepV2(tag, len, st);
+	else if (!strcmp(k, "beltDWPStepV")) r = beltDWPStepV(tag, st);
+	else if (!strcmp(k, "beltCHEStepV")) r = beltCHEStepV(tag, st);
+	else if (!strcmp(k, "beltHashStepV")) r = beltHashStepV(tag, st);
+	else if (!strcmp(k, "beltHashStepV2")) r = beltHashStepV2(tag, len, st);
+	else if (!strcmp(k, "beltHMACStepV")) r = beltHMACStepV(tag, st);
+	else if (!strcmp(k, "beltHMACStepV2")) r = beltHMACStepV2(tag, len, st);
+	else if (!strcmp(k, "bashHashStepV")) r = bashHashStepV(tag, len, st);
+	else { printf("bad-op"); return; }
+	printf("%d ", r ? 1 : 0);
+	put_hex(st, ls);
+	free(st); hex_free(st0, ls); hex_free(tag, lt);
 }
 
 /* kwp <key> <header|-> <token>   beltKWPUnwrap: prints err code and the unwrapped key
@@ -496,6 +577,9 @@ static void handle(int argc, char** argv)
 	else if (!strcmp(argv[0], OPW("sf"))) do_sf(argc - 1, argv + 1);
 	else if (!strcmp(argv[0], "tag")) do_verify(0, argc - 1, argv + 1);
 	else if (!strcmp(argv[0], "stepv") || !strcmp(argv[0], "stepv32")) do_verify(1, argc - 1, argv + 1);
+	else if (!strcmp(argv[0], "state")) do_verify(2, argc - 1, argv + 1);
+	else if (!strcmp(argv[0], "stepvx")) do_stepvx(argc - 1, argv + 1);
+	else if (!strcmp(argv[0], "irx")) do_irx(argc - 1, argv + 1);
 	else if (!strcmp(argv[0], "kwp")) do_kwp(0, argc - 1, argv + 1);
 	else if (!strcmp(argv[0], "kwpw")) do_kwp(1, argc - 1, argv + 1);
 	else if (!strcmp(argv[0], "prim")) do_prim(argc - 1, argv + 1);
